@@ -9,6 +9,7 @@
 mod extras;
 mod layers;
 mod netcase;
+mod netterm;
 mod nets;
 mod random;
 mod tensors;
@@ -104,6 +105,7 @@ fn dispatch(group: &str, case: &Value, rep: &mut util::Report, rng: &mut util::R
         "activation" => terms::replay_activation(case, rep),
         "softmaxce" => terms::replay_softmaxce(case, rep),
         "layerterm" => terms::replay_layerterm(case, rep, rng),
+        "netterm" => netterm::replay_netterm(case, rep, rng),
         _ => panic!("unknown group {}", group),
     }
 }
